@@ -10,4 +10,5 @@ def run(c):
     c.guard("blocks", st.get("blocks", 0))
     c.guard("blocks_with_cheaters", st.get("blocks_with_cheaters", 0))
     c.guard("byz_epochs", st.get("byz_epochs", 0))
+    c.guard("cheater_lists_not_in_id_order", st.get("cheater_lists_not_in_id_order", 0))
     return lc.finish(c, res, "cheater list of every block compared with the canonical-order list of validators whose fork is visible from the Atropos; runs with forkers >= 1/3 included (block contents given the logged Atropos)", extra=dict(exhaustive_part=ex["total"], model_samples=ex["samples"]))
